@@ -117,6 +117,7 @@ def run(db, cx):
     momentum_closure(db, cx)
     unit_directions(db, cx)
     secondary_complete(db, cx)
+    absorbed_without_products(db, cx)
 
 
 def threshold_pairing(db, cx):
@@ -440,3 +441,71 @@ def secondary_complete(db, cx):
         cx.ob("C04.10-secondary-complete", "%s: `%s` gets particle_id, energy and direction" % key,
               not missing, "missing: %s" % ", ".join(missing) if missing else "all three written",
               where[key], why="an emitted secondary with a default field is an invalid track")
+
+
+def _reaching_leaf_writes(f, var, leaf, pos):
+    """write events to field `leaf` of local `var` that may reach pos (a write to the same
+    field kills earlier ones on that path)"""
+    out, seen = [], set()
+    work = [(pos[0], pos[1])]
+    first = True
+    while work:
+        b, upto = work.pop()
+        if not first and b in seen:
+            continue
+        if not first:
+            seen.add(b)
+        first = False
+        evs = f.blocks[b]["ev"]
+        hit = None
+        for k in range(min(upto, len(evs)) - 1, -1, -1):
+            e = evs[k]
+            if e["e"] == "write" and e.get("path", {}).get("root") == "l:" + var and \
+                    path_leaf(e.get("path")) == leaf:
+                hit = e
+                break
+            if e["e"] == "def" and e.get("var") == var and e.get("kind") == "decl":
+                hit = "decl"
+                break
+        if hit == "decl":
+            continue
+        if hit is not None:
+            out.append(hit)
+            continue
+        for p in f.preds(b):
+            if p not in seen:
+                work.append((p, 10 ** 9))
+    return out
+
+
+def absorbed_without_products(db, cx):
+    """C04.11-absorbed-deposits: when an interactor absorbs the incident particle
+    (Interaction::from_absorption) and hands back no secondaries, nothing carries the incident
+    energy away: the local deposition must be the incident energy itself."""
+    n = 0
+    seen = set()
+    for nm in db.find(r"^celeritas::[A-Za-z]+Interactor::operator\(\)$"):
+        for f in db.get(nm):
+            absorbed = set(ev["var"] for (_b, _i, ev) in f.events("def")
+                           if C + "Interaction::from_absorption" in ev.get("calls", []))
+            for (b, i, ev) in f.events("return"):
+                root = ev.get("path", {}).get("root", "")
+                if not root.startswith("l:") or root[2:] not in absorbed or ev.get("path", {}).get("chain"):
+                    continue
+                var = root[2:]
+                if ev["loc"] in seen:
+                    continue
+                seen.add(ev["loc"])
+                if _reaching_leaf_writes(f, var, C + "Interaction::secondaries", (b, i)):
+                    continue                    # products are returned: judged by the other rules
+                ws = _reaching_leaf_writes(f, var, C + "Interaction::energy_deposition", (b, i))
+                inc = [w for w in ws if any(r.split("::")[-1] in ("inc_energy_",) for r in w.get("refs", []))
+                       or C + "ParticleTrackView::energy" in w.get("calls", [])]
+                ok = bool(ws) and len(inc) == len(ws)
+                n += 1
+                cx.ob("C04.11-absorbed-deposits", "%s: absorbed without secondaries @%s deposits the incident energy"
+                      % (nm.split("::")[-2], short(ev["loc"]).split(":", 1)[1]), ok,
+                      "; ".join("energy_deposition = %s" % (w.get("rhs") or "")[:50] for w in ws) or
+                      "no deposition on this path", short(ev["loc"]),
+                      why="the particle is gone and nothing else carries its energy")
+    cx.floor("absorbed-without-products returns", n, 1)
